@@ -190,6 +190,7 @@ def history_case(rng, name, mk, meta, ids):
     """random history, then fit(d): must equal a fresh clone fitted on d"""
     nu = meta.get('nu', 1)
     D1 = data(rng, nu=nu); D2 = data(rng, nu=nu, length=11)
+    common.note_case('history', name, D1)
     tol = meta.get('tol', 0)
     est = mk()
     h0 = phash(est)
